@@ -78,6 +78,10 @@ def build(rng, case):
             cell[1, 0] = cell[2, 0] = 0.0
         elif zero == 5:
             cell[2, 0] = cell[2, 1] = 0.0
+    if rng.integers(8) == 0:
+        # a very large box (or a structure far from the origin): coordinates beyond +-1000 need more characters than usual
+        cell = cell * float(rng.choice([40.0, 150.0]))
+        case["_wide_coordinates"] = True
     pos = rng.uniform(-0.3, 1.3, (n, 3)).dot(cell)
     if rng.integers(3) == 0:
         pos = np.round(pos, 3)
@@ -328,6 +332,8 @@ def run_case(case, ctx):
     if t2 == t1:
         st.count("first_rewrite_already_identical")
     st.seen("style", style)
+    if case.get("_wide_coordinates") and (np.abs(a.positions).max() >= 1000 or a.positions.min() <= -100):
+        st.count("structures_with_coordinates_beyond_the_usual_field_width")
     if case.get("_empty_label"):
         st.count("structures_with_an_empty_type_label")
     if case.get("_table_without_terms"):
@@ -427,6 +433,8 @@ def requirements(stats, tier):
         need.append("second writes of an edited object: %d, edit kinds %s" % (stats.get("second_writes_after_edit"), sorted(stats.sets.get("history_edit", []))))
     if stats.get("structures_with_a_coefficient_table_for_a_kind_without_terms") < (10 if tier == "quick" else 2000):
         need.append("structures with a coefficient table for a kind without terms: %d" % stats.get("structures_with_a_coefficient_table_for_a_kind_without_terms"))
+    if stats.get("structures_with_coordinates_beyond_the_usual_field_width") < (8 if tier == "quick" else 2000):
+        need.append("structures with coordinates <= -100 or >= 1000: %d" % stats.get("structures_with_coordinates_beyond_the_usual_field_width"))
     if stats.get("structures_with_an_empty_type_label") < (5 if tier == "quick" else 1000):
         need.append("structures with an empty type label: %d" % stats.get("structures_with_an_empty_type_label"))
     if stats.nseen("style") < 2 or stats.nseen("tables") < 5:
